@@ -1,6 +1,7 @@
 import SqlObjVerif.Lemmas.DdlCols
 import SqlObjVerif.Lemmas.DdlCat
 import SqlObjVerif.Lemmas.DdlStyle
+import SqlObjVerif.Lemmas.DdlFlags
 /-!
 # C14 — the generated schema matches the class declaration, in every dialect
 
@@ -113,6 +114,56 @@ theorem C14_drop_if_present_idempotent {r : Req} {c c1 : Cat} (h : dropTable tru
 
 theorem C14_drop_after_create_restores {r : Req} {c c1 c2 : Cat} (h1 : createTable false r c = .ok c1)
     (h2 : dropTable false r c1 = .ok c2) : ∀ t, t ∈ c2.tables ↔ t ∈ c.tables := drop_after_create h1 h2
+
+/-- `dropTable(ifExists=True, dropJoinTables=…)` NEVER fails, whatever is in the catalogue: class table present
+    or absent, each link table present or absent (e.g. made with `createJoinTables=False`), a link table listed
+    twice (self-referential join); and afterwards the class table is gone.  Relies on the flag being handed on
+    to `dropJoinTables`, which is read from the source (`Extracted.dropPassesIfExists`). -/
+theorem C14_drop_if_present_never_fails (dj : Bool) (r : Req) (c : Cat) :
+    ∃ c1, dropTableG Extracted.dropPassesIfExists Extracted.dropDedupes true dj r c = .ok c1 ∧ r.table ∉ c1.tables := by
+  have h : Extracted.dropPassesIfExists = true := by decide
+  rw [h]; exact dropTableG_if_present_ok _ dj r c
+
+theorem C14_drop_if_present_idempotent_flags (dj : Bool) (r : Req) (c c1 : Cat)
+    (h : dropTableG Extracted.dropPassesIfExists Extracted.dropDedupes true dj r c = .ok c1) :
+    dropTableG Extracted.dropPassesIfExists Extracted.dropDedupes true dj r c1 = .ok c1 := by
+  have hp : Extracted.dropPassesIfExists = true := by decide
+  rw [hp] at h ⊢; exact dropTableG_idempotent _ dj r c c1 h
+
+/-- without the flag handed on, drop-if-present fails as soon as an owned link table is absent -/
+theorem C14_drop_if_present_needs_the_flag :
+    ¬ (∀ (r : Req) (c : Cat), ∃ c1, dropTableG false false true true r c = .ok c1) := by
+  intro h
+  obtain ⟨c1, h1⟩ := h ⟨[116], [[108]], []⟩ ⟨[[116]], []⟩
+  have e : dropTableG false false true true ⟨[116], [[108]], []⟩ ⟨[[116]], []⟩ = .error () := by rfl
+  rw [e] at h1; cases h1
+
+theorem C14_create_if_missing_idempotent_flags (cj : Bool) (r : Req) (c c1 : Cat)
+    (h : createTableG Extracted.createPassesIfNotExists Extracted.createDedupes true cj r c = .ok c1) :
+    createTableG Extracted.createPassesIfNotExists Extracted.createDedupes true cj r c1 = .ok c1 :=
+  createTableG_idempotent _ _ cj r c c1 h
+
+/-- Full statement "what `createTable()` made, plain `dropTable()` removes" is false of the current code for a
+    self-referential join declared in both directions: the link table is created once (`_getJoinsToCreate`
+    skips the second listing) but dropped twice (`dropJoinTables` does not), and the second DROP fails. -/
+theorem C14_plain_drop_after_create_full_FALSE :
+    ¬ (∀ (r : Req) (c c1 : Cat),
+        createTableG Extracted.createPassesIfNotExists Extracted.createDedupes false true r c = .ok c1 →
+        ∃ c2, dropTableG Extracted.dropPassesIfExists Extracted.dropDedupes false true r c1 = .ok c2) := by
+  intro h
+  have e1 : createTableG Extracted.createPassesIfNotExists Extracted.createDedupes false true
+      ⟨[116], [[108], [108]], []⟩ ⟨[], []⟩ = .ok ⟨[[116], [108]], []⟩ := by rfl
+  obtain ⟨c2, h2⟩ := h ⟨[116], [[108], [108]], []⟩ ⟨[], []⟩ ⟨[[116], [108]], []⟩ e1
+  have e2 : dropTableG Extracted.dropPassesIfExists Extracted.dropDedupes false true
+      ⟨[116], [[108], [108]], []⟩ ⟨[[116], [108]], []⟩ = .error () := by rfl
+  rw [e2] at h2; cases h2
+
+/-- …and holds when no link table is listed twice (`C14_drop_after_create_restores` above is the
+    statement for the plain pair of operations). -/
+theorem C14_plain_drop_after_create_partial {r : Req} {c c1 : Cat} (h1 : createTable false r c = .ok c1) :
+    ∃ c2, dropTable false r c1 = .ok c2 ∧ c2.tables = c.tables := by
+  obtain ⟨c2, h2, h3, _⟩ := drop_after_create_ok h1
+  exact ⟨c2, h2, h3⟩
 
 /-! ### addColumn / delColumn with changeSchema -/
 
